@@ -534,7 +534,15 @@ def is_soft(op, opers, goal_name):
         # a surd divisor: every goal goes through the norm A² − B²·n and its gcd reductions
         if opers[1].kind == "surd":
             return True
+    # comparing a surd: the sign of q − a − b·√n is decided by squaring; z3 usually answers in a
+    # second, but the same query occasionally runs past any limit (observed: once in about five
+    # runs beyond 300 s).  Attempted with a 20 s limit; `unknown` is counted as undecided.
+    if op in CMP_OPS and any(x.kind == "surd" for x in opers):
+        return True
     return False
+
+
+CMP_OPS = ("lt?", "le?", "gt?", "ge?", "eq?", "min", "max", "clamp", "compare", "sign")
 
 
 class Job:
@@ -593,7 +601,11 @@ def run_job(args):
         assumptions = [a for a in assumptions if a is not True]
         m = Machine(prog, B, solver=solver, max_steps=1500 if op == "sqrt" else 6000, max_paths=3000)
 
-        P = Prover(solver, timeout_ms)
+        # a reachability witness is a satisfiability query over non-linear arithmetic; when the
+        # solver runs out of time on it the path's goals stay decided under the path condition but
+        # their non-vacuity is not shown: counted (witness_unknown), not fatal
+        P = Prover(solver, timeout_ms, soft_witness=True)
+        P.witness_timeout_ms = 60000
         soft = {"n": 0}
 
         def prove(name, goal, o):
@@ -603,7 +615,7 @@ def run_job(args):
             if over or is_soft(op, opers, name):
                 # attempted with a short time limit; `unknown` is recorded as undecided and is
                 # outside the claim (never counted as discharged); `sat` is still replayed
-                P.timeout_ms = 4000
+                P.timeout_ms = 20000 if op in CMP_OPS else 4000
                 n_inc = len(P.inconclusive)
                 P.prove("%s %s" % (out["desc"], name), goal,
                         lambda sv: refine_and_replay(qv, h, prog, fn, op, arg, sv, B, leaves, o))
@@ -660,6 +672,7 @@ def run_job(args):
         out["queries"] += P.queries
         out["solver_s"] += P.solver_s
         out["witnesses"] = P.witnesses
+        out["witness_unknown"] = getattr(P, "witness_unknown", 0)
         out["undecided_soft"] = soft["n"]
         if deadline is not None:
             # thorough tier: a goal the solver gives up on within its time limit is counted as
@@ -757,7 +770,7 @@ def refine_and_replay(qv, h, prog, fn, op, arg, solver, B, leaves, o, rounds=25)
 def main():
     rep = Report(PROP)
     t = rep.tier
-    timeout_ms = 120000 if t == "quick" else 300000
+    timeout_ms = 300000
     # thorough: after 40 minutes of wall time the remaining obligations are only attempted with
     # the 4 s limit of the soft ones; what stays undecided is counted (undecided_after_budget) and
     # is outside the claim of that run
@@ -796,6 +809,7 @@ def main():
         rep.discharged += r["ok"]
         rep.extra["vacuity_witnesses_sat"] = rep.extra.get("vacuity_witnesses_sat", 0) + r.get("witnesses", 0)
         rep.extra["bounded_paths"] = rep.extra.get("bounded_paths", 0) + r.get("bound", 0)
+        rep.extra["vacuity_witnesses_unknown"] = rep.extra.get("vacuity_witnesses_unknown", 0) + r.get("witness_unknown", 0)
         rep.extra["undecided_soft_obligations"] = rep.extra.get("undecided_soft_obligations", 0) + r.get("undecided_soft", 0)
         rep.extra["attempted_after_budget"] = rep.extra.get("attempted_after_budget", 0) + r.get("budget_soft", 0)
         rep.extra["jobs_not_run_after_budget"] = rep.extra.get("jobs_not_run_after_budget", 0) + r.get("not_run_after_budget", 0)
